@@ -491,6 +491,110 @@ def entry_points(chk, rng, dist):
     dist['entry_point_runs'] = runs[0]
 
 
+def main_thread_run(chooser, n_files):
+    """`bardolph.controller.run.main()` under the scheduler: every line of run.py and
+    job_control.py a switch point, `time.sleep` virtual.  main() queues the files named on the
+    command line and then has to stay until the queue has drained — when the main thread ends no
+    further thread can be started (Python 3.12), so a script that has not BEGUN by then never
+    runs.  Oracle: when main() returns every file's script has begun; each runs exactly once, in
+    the order given."""
+    from bardolph.lib import job_control as jc
+    from bardolph.controller import run as run_mod
+    problems = []
+    events = []
+    s = sched.Scheduler(trace_files=[jc.__file__, run_mod.__file__], chooser=chooser, max_steps=8000,
+                        watchdog_s=20.0)
+
+    class FileJob(jc.Job):
+        def __init__(self, label):
+            self.label = label
+
+        def execute(self):
+            events.append(('begin', self.label))
+            s.yield_point(('body',))
+            s.yield_point(('body',))
+            events.append(('end', self.label))
+
+    class FakeScriptJob:
+        @staticmethod
+        def from_file(name):
+            return FileJob(name)
+
+        @staticmethod
+        def from_string(text):
+            return FileJob(text)
+
+    class Args:
+        file = ['f{}'.format(i) for i in range(n_files)]
+        script = None
+        config_file = None
+        fakes = True
+        verbose = False
+
+    class Nothing:
+        @staticmethod
+        def configure():
+            pass
+
+    state = {}
+    with s.patched(jc):
+        with s.patched(run_mod, threading=False, time=True,
+                       extra={'ScriptJob': FakeScriptJob, 'init_args': lambda: Args,
+                              'init_settings': lambda args: None, 'light_module': Nothing,
+                              'runtime_module': Nothing}):
+            def main_thread():
+                run_mod.main()
+                state['begun_at_return'] = [l for e, l in events if e == 'begin']
+            s.add_thread('main', main_thread)
+            res = s.run()
+    for tid, ex in res.exceptions.items():
+        problems.append(('entry-point-raises:command-line', '{} escaped from thread {}: {}'.format(
+            type(ex).__name__, tid, ex)))
+    if res.deadlock:
+        problems.append(('deadlock', 'no thread can run: {}'.format(res.blocked)))
+    elif res.aborted:
+        problems.append(('queue-not-drained:command-line', 'run.main() had not returned after {} steps'.format(
+            len(res.steps))))
+    elif not res.exceptions:
+        want = Args.file
+        begun = [l for e, l in events if e == 'begin']
+        if state.get('begun_at_return') != want:
+            problems.append(('main-returns-before-queue-drained',
+                             'when run.main() returned only {} of the scripts {} had begun; no thread can be '
+                             'started after the main thread has ended, so the others never run'.format(
+                                 state.get('begun_at_return'), want)))
+        elif begun != want:
+            problems.append(('not-in-order-exactly-once:command-line',
+                             'scripts began as {} instead of {}'.format(begun, want)))
+    return res, problems
+
+
+def main_thread_runs(chk, rng, dist):
+    found = []
+    runs = [0]
+
+    def one(chooser, n_files):
+        res, problems = main_thread_run(chooser, n_files)
+        runs[0] += 1
+        chk.count()
+        if problems and not found:
+            sig, text = problems[0]
+            found.append(sig)
+            chk.violation(sig, text + ' [bardolph.controller.run.main, {} files]'.format(n_files),
+                          {'entry_point': 'bardolph.controller.run.main', 'files': n_files,
+                           'schedule': res.schedule})
+        elif not problems:
+            chk.nontrivial_case(('main', n_files, tuple(res.schedule)))
+        return res
+    sched.explore_bounded(lambda ch: one(ch, 2), 2, max_runs=3000 if chk.thorough else 400,
+                          on_result=lambda r: bool(found))
+    for _ in range(300 if chk.thorough else 50):
+        if found:
+            break
+        one(sched.RandomChooser(rng, stay=rng.choice([0.0, 0.5, 0.8])), rng.choice([1, 2, 3]))
+    dist['main_thread_runs'] = runs[0]
+
+
 def unnamed_background_run(chooser, names):
     """Background jobs started WITHOUT a name (`spawn_job(job, None)` / `''` — what
     `WebApp.queue_file(…, run_background=True)` does): the controller gives each a name of its
@@ -751,6 +855,7 @@ def main():
     # ---- 2b. the entry point that owns a controller of its own
     entry_points(chk, rng, dist)
     unnamed_background(chk, rng, dist)
+    main_thread_runs(chk, rng, dist)
     command_line(chk, dist)
 
     # ---- 3. correspondence with the Lean transition system, step by step
